@@ -1172,6 +1172,10 @@ class Interp:
             return l.fn is r.fn
         if isinstance(l, Prim) and isinstance(r, Prim):
             return l.name == r.name
+        if isinstance(l, Sym) and l.typ in ('style', 'int') and isinstance(r, Const) and r.v is None:
+            return False        # a value of a known kind (a style object of the colour model, an integer) is not None
+        if isinstance(r, Sym) and r.typ in ('style', 'int') and isinstance(l, Const) and l.v is None:
+            return False
         if isinstance(l, SymStr) and isinstance(r, Const) and r.v is None:
             return False
         if isinstance(r, SymStr) and isinstance(l, Const) and l.v is None:
